@@ -55,9 +55,9 @@ func init() {
 		},
 		Bound: func(tier string) string {
 			if tier == "thorough" {
-				return "field sequences of length 1-2 over the full alphabet (117 letters) with all value vectors, length 3 over the thinned alphabet (12 kinds x 3 tags) with {first,last} values; 64 or 192 option vectors; cache histories: all sequences of distinct actions up to length 5 plus all 720 orders per package"
+				return fmt.Sprintf("field sequences of length 1-2 over the full alphabet (%d letters) with all value vectors, every one-field type also through a pointer to a pointer, length 3", len(gens.FieldAlphabet(gens.AllKinds()))) + "  over the thinned alphabet (12 kinds x 3 tags) with {first,last} values; 64 or 192 option vectors; cache histories: all sequences of distinct actions up to length 5 plus all 720 orders per package"
 			}
-			return "field sequences of length 1-2 over the full alphabet (117 letters) with all value vectors; 64 or 192 option vectors; cache histories: all sequences of distinct actions up to length 3 plus all 720 orders per package"
+			return fmt.Sprintf("field sequences of length 1-2 over the full alphabet (%d letters) with all value vectors, every one-field type also through a pointer to a pointer", len(gens.FieldAlphabet(gens.AllKinds()))) + "; 64 or 192 option vectors; cache histories: all sequences of distinct actions up to length 3 plus all 720 orders per package"
 		},
 	})
 }
